@@ -600,7 +600,7 @@ impl Prop for C40 {
         replay_case::<GenCase, Env>(case, &mk_env, &check)
     }
     fn case_timeout_s(&self, _tier: Tier) -> u64 {
-        60
+        150
     }
     /// triage: `vcheck child C40 mkcase file.json` with {"text": program over p0..pN, "queries": [goal, ..]}
     /// runs the check and prints a replay file; `vcheck child C40 table file.json` prints the runs for limits 0..N
